@@ -94,7 +94,7 @@ func oneRun(c *Ctx, seed int64) (bool, error) {
 		}
 		if len(cand) > 0 {
 			ij := cand[r.Intn(len(cand))]
-			p.SetVictim(1, ij[1], ij[0], 2+r.Intn(3))
+			p.SetVictim(1, ij[1], ij[0], 2+r.Intn(4)) // at most 5 lost: inside the retry budget of 7
 			victim = true
 		}
 	}
@@ -136,9 +136,10 @@ func oneRun(c *Ctx, seed int64) (bool, error) {
 		p.Do(1, agenth.Op{Kind: "TK"})
 		p.Lossy()
 	}
+	needQuiet := 2
 	converge := func(rounds int) {
 		quiet := 0
-		for k := 0; k < rounds && quiet < 2; k++ {
+		for k := 0; k < rounds && quiet < needQuiet; k++ {
 			p.Do(0, agenth.Op{Kind: "TK"})
 			p.DeliverAll()
 			p.Do(1, agenth.Op{Kind: "TK"})
@@ -150,7 +151,11 @@ func oneRun(c *Ctx, seed int64) (bool, error) {
 			}
 		}
 	}
+	if victim && r.Intn(2) == 0 {
+		needQuiet = 1 // renominate as soon as both are connected: the victim pair is then still not valid on B
+	}
 	converge(30)
+	needQuiet = 2
 	lastNomLH, lastNomAddr, lastNomSide := -1, agenth.Addr{}, 0
 	nRenom := 0
 	if renom && r.Intn(4) != 0 {
